@@ -27,3 +27,9 @@ VARIANTS = [
     v("c13-twin-widen", A, "        x = int64(xx[i])\n", "        x = float64(xx[i])\n", expect="silent"),
     v("c13-twin-guard", S, "    if n == 0:\n        return (0, 0)\n\n    xtsbar", "    if n < 1:\n        return (0, 0)\n\n    xtsbar", expect="silent"),
 ]
+
+VARIANTS += [
+    v("c13-fastmath", A, "@njit\ndef autocorr_1d_float(data):", "@njit(fastmath={\"reassoc\", \"contract\"})\ndef autocorr_1d_float(data):", names="NB-FLAGS", note="seeded C13a"),
+    v("c13-error-model", S, "@njit\ndef gammafit(x):", "@njit(error_model=\"numpy\")\ndef gammafit(x):", names="NB-FLAGS"),
+    v("c13-twin-cache", S, "@njit\ndef gammafit(x):", "@njit(cache=False)\ndef gammafit(x):", expect="silent"),
+]
